@@ -1,11 +1,159 @@
-import PyresampleModel.Model.Core
+import PyresampleModel.Model.Grid
 
 /-
-  C07 — model (stub: not built yet).
+  C07 — `bucket.BucketResampler`: raveled cell index, histograms, sort-based min / max, average,
+  fractions.  Data values are `Option Rat` (`none` = NaN).
 -/
+
 namespace PyresampleModel.C07
 
+open Grid
+
+/-- `_get_indices`: (y_idx, x_idx) with out-of-area → (-1, -1), then `idxs = y_idxs * width + x_idxs` -/
+def ravelIdx (g : Grid) (x y : Rat) : Int :=
+  let c := pyFloor ((x - g.x0) / g.dx)
+  let r := pyFloor ((g.y1 - y) / g.dy)
+  if 0 ≤ c ∧ c < g.w ∧ 0 ≤ r ∧ r < g.h then r * g.w + c else (-1) * g.w + (-1)
+
+/-- `da.histogram(idxs, bins=size, range=(0, size))` of one chunk: count per bin -/
+def histCount (idxs : List Int) (size : Nat) : List Nat :=
+  (List.range size).map (fun (b : Nat) => (idxs.filter (fun i => i == (b : Int))).length)
+
+/-- weighted histogram of one chunk -/
+def histSum (idxs : List Int) (weights : List Rat) (size : Nat) : List Rat :=
+  (List.range size).map (fun (b : Nat) =>
+    ((idxs.zip weights).filter (fun p => p.1 == (b : Int))).foldl (fun acc p => acc + p.2) 0)
+
+def addLists {α} [Add α] (a b : List α) : List α := List.zipWith (· + ·) a b
+
+/-- dask's histogram: per-chunk histograms summed -/
+def histCountChunked (chunks : List (List Int)) (size : Nat) : List Nat :=
+  chunks.foldl (fun acc ch => addLists acc (histCount ch size)) (List.replicate size 0)
+
+def histSumChunked (chunks : List (List Int × List Rat)) (size : Nat) : List Rat :=
+  chunks.foldl (fun acc ch => addLists acc (histSum ch.1 ch.2 size)) (List.replicate size 0)
+
+/-- `_get_invalid_mask`: NaN fill → isnan, else `data == fill` -/
+def invalid (fill : Option Rat) (v : Option Rat) : Bool :=
+  match fill with
+  | none => v.isNone
+  | some f => v == some f
+
+/-- `get_sum`: result per bin; `none` = NaN -/
+def getSum (idxs : List Int) (data : List (Option Rat)) (size : Nat) (fill : Option Rat)
+    (skipna : Bool) (empty : Option Rat) : List (Option Rat) :=
+  let inv := data.map (invalid fill)
+  -- `weights = where(invalid, 0, data)`; a NaN that is *not* the fill value stays NaN and poisons its bin
+  let w : List Rat := (data.zip inv).map (fun p => if p.2 then 0 else p.1.getD 0)
+  let poison : List Bool := (data.zip inv).map (fun p => !p.2 && p.1.isNone)
+  let sums := histSum idxs w size
+  let nanBins := histCount ((idxs.zip poison).filterMap (fun p => if p.2 then some p.1 else none)) size
+  let s0 : List (Option Rat) := (sums.zip nanBins).map (fun p => if p.2 > 0 then none else some p.1)
+  let s1 :=
+    if skipna then s0 else
+      let miss := histCount ((idxs.zip inv).filterMap (fun p => if p.2 then some p.1 else none)) size
+      (s0.zip miss).map (fun p => if p.2 > 0 then fill else p.1)
+  match empty with
+  | some e => if e = 0 then s1 else s1.map (fun v => if v == some 0 then some e else v)
+  | none => s1.map (fun v => if v == some 0 then none else v)
+
+/-- order used by `np.argsort` on floats: NaN last -/
+def leNan : Option Rat → Option Rat → Bool
+  | some a, some b => decide (a ≤ b)
+  | some _, none => true
+  | none, some _ => false
+  | none, none => true
+
+/-- `_get_statistics`: sort by weight (reverse for max), first element of each bin, NaN for empty bins -/
+def binStat (isMax : Bool) (idxs : List Int) (data : List (Option Rat)) (size : Nat) : List (Option Rat) :=
+  let sorted := (idxs.zip data).mergeSort (fun p q => leNan p.2 q.2)
+  let order := if isMax then sorted.reverse else sorted
+  (List.range size).map (fun (b : Nat) =>
+    match order.find? (fun p => p.1 == (b : Int)) with
+    | some p => p.2
+    | none => none)
+
+/-- `_get_abs_max_from_min_max`: `where(-min > max, min, max)`; comparisons with NaN are false -/
+def absMax (mn mx : Option Rat) : Option Rat :=
+  match mn, mx with
+  | some a, some b => if -a > b then some a else some b
+  | _, _ => mx
+
+/-- `get_average` -/
+def getAverage (idxs : List Int) (data : List (Option Rat)) (size : Nat) (fill : Option Rat)
+    (skipna : Bool) : List (Option Rat) :=
+  let data' := match fill with
+    | none => data
+    | some f => data.map (fun v => if v == some f then none else v)
+  let sums := getSum idxs data' size none skipna (some 0)
+  let cnt := histSum idxs (data'.map (fun v => if v.isSome then 1 else 0)) size
+  (sums.zip cnt).map (fun p =>
+    match p.1 with
+    | none => fill
+    | some s => if p.2 = 0 then fill else some (s / p.2))
+
+/-- `get_fractions` for one category: `sum(data == cat) / count`, fill where count = 0 -/
+def getFraction (idxs : List Int) (data : List (Option Rat)) (size : Nat) (cat : Rat) : List (Option Rat) :=
+  let sums := histSum idxs (data.map (fun v => if v == some cat then 1 else 0)) size
+  let cnt := histCount idxs size
+  (sums.zip cnt).map (fun p => if p.2 = 0 then none else some (p.1 / p.2))
+
+/-! ### driver -/
+open Wire
+
+def optRat? (s : String) : Option (Option Rat) :=
+  if s = "nan" then some none else (rat? s).map some
+
+def showOptRat : Option Rat → String
+  | none => "nan"
+  | some q => showRat q
+
 def handle : List String → Option String
+  | "ravel" :: rest => do
+    -- ravel <grid> <n> x₁ … x_n <n> y₁ … y_n
+    let (g, tl) ← grid? rest
+    let (xs, tl) ← takeList rat? tl
+    let (ys, tl) ← takeList rat? tl
+    if tl ≠ [] ∨ xs.length ≠ ys.length then none else
+    if g.w = 0 ∨ g.h = 0 ∨ g.dx = 0 ∨ g.dy = 0 then some "err:degenerate" else
+    some (showList toString ((xs.zip ys).map (fun p => ravelIdx g p.1 p.2)))
+  | "count" :: size :: rest => do
+    let size ← nat? size
+    let n ← nat? (← rest.head?)
+    let chunks ← allLists int? n rest.tail
+    some (showList toString (histCountChunked chunks size))
+  | "sum" :: size :: fill :: skipna :: empty :: rest => do
+    -- sum <size> <fill> <skipna> <empty> <n> idx… <n> data…
+    let size ← nat? size; let fill ← optRat? fill; let sk ← bool? skipna; let em ← optRat? empty
+    let (idxs, tl) ← takeList int? rest
+    let (data, tl) ← takeList optRat? tl
+    if tl ≠ [] ∨ idxs.length ≠ data.length then none else
+    some (showList showOptRat (getSum idxs data size fill sk em))
+  | "stat" :: which :: size :: rest => do
+    -- stat min|max|absmax <size> <n> idx… <n> data…
+    let size ← nat? size
+    let (idxs, tl) ← takeList int? rest
+    let (data, tl) ← takeList optRat? tl
+    if tl ≠ [] ∨ idxs.length ≠ data.length then none else
+    match which with
+    | "min" => some (showList showOptRat (binStat false idxs data size))
+    | "max" => some (showList showOptRat (binStat true idxs data size))
+    | "absmax" =>
+      some (showList showOptRat (((binStat false idxs data size).zip (binStat true idxs data size)).map
+        (fun p => absMax p.1 p.2)))
+    | _ => none
+  | "avg" :: size :: fill :: skipna :: rest => do
+    let size ← nat? size; let fill ← optRat? fill; let sk ← bool? skipna
+    let (idxs, tl) ← takeList int? rest
+    let (data, tl) ← takeList optRat? tl
+    if tl ≠ [] ∨ idxs.length ≠ data.length then none else
+    some (showList showOptRat (getAverage idxs data size fill sk))
+  | "frac" :: size :: cat :: rest => do
+    let size ← nat? size; let cat ← rat? cat
+    let (idxs, tl) ← takeList int? rest
+    let (data, tl) ← takeList optRat? tl
+    if tl ≠ [] ∨ idxs.length ≠ data.length then none else
+    some (showList showOptRat (getFraction idxs data size cat))
   | _ => none
 
 end PyresampleModel.C07
